@@ -43,6 +43,7 @@ func main() {
 	dump := flag.String("dump", "", "debug: dump paths of function key")
 	dumpSQL := flag.Bool("dumpsql", false, "debug: dump the sqlite model")
 	dumpCanon := flag.String("canon", "", "debug: print the canonicalised body of function key")
+	genAnchors := flag.String("genanchors", "", "maintenance: write the signature table of the current tree to this file")
 	flag.Parse()
 
 	seed := 0
@@ -59,6 +60,13 @@ func main() {
 			fmt.Printf("VIOLATION property=%s replay=%s\n", *prop, "load-failure")
 		}
 		os.Exit(1)
+	}
+	if *genAnchors != "" {
+		if err := writeAnchors(p, *genAnchors); err != nil {
+			fmt.Println("ERROR:", err)
+			os.Exit(2)
+		}
+		return
 	}
 	if *dump != "" {
 		dumpPaths(p, *dump)
